@@ -548,12 +548,11 @@ def r7(ctx, cfg):
         ctx.ob(R, key, "returns-new-id", ok, "duplicate_code does not return the new id", fn=f, sample="Ok(new_code_id)")
 
 
-def r9(ctx, cfg):
+def r9(ctx, cfg, R="C11.R9"):
     """"with a salt, the address is a function of only the code checksum, creator and salt" - of the generators the keeper was
     given: `with_address_generator` / `with_checksum_generator` return the keeper with exactly that field replaced by the
     generator supplied (a builder that drops it silently leaves the default generators in place)"""
     F, P = cfg.facts, cfg.prov
-    R = "C11.R9"
     for name, fld, prm in (("with_address_generator", "address_generator", "address_generator"), ("with_checksum_generator", "checksum_generator", "checksum_generator")):
         key = W + name
         f = ctx.need_fn(R, key)
